@@ -359,7 +359,12 @@ impl BinaryMatrix for SparseBinaryMatrix {
             // Append a new set of words
             let mut src = self.dense_elements.len();
             self.dense_elements.extend(vec![0; self.height]);
-            let mut dest = self.dense_elements.len();
+            // Without any dense word so far there is nothing to re-space
+            let mut dest = if src > 0 {
+                self.dense_elements.len()
+            } else {
+                0
+            };
             // Re-space the elements, so that each row has an empty word
             while src > 0 {
                 src -= 1;
